@@ -317,7 +317,7 @@ func (c *Ctx) goStmt(st *State, fr *Frame, x *ssa.Go) {
 		env := c.calleeEnv(st, st, fr, tgt)
 		c.bindLets(env, fc)
 		for _, cl := range fc.Clauses {
-			if cl.Kind != "requires" {
+			if cl.Kind != "requires" || cl.Assumed {
 				continue
 			}
 			env.goal = true
